@@ -8,6 +8,7 @@ import operator as pyop
 from vlib.anchoring import Taint, find_sites
 from vlib.core import AnalysisError, Report
 from vlib.nodemodel import NodeModel
+from vlib.flow import parent_map
 from vlib.match import FI, X, atoms, closure, has_call, nodes, resolved_returns
 from vlib.srcindex import SourceIndex, attr_chain, const_str, unparse, walk_no_nested
 
@@ -60,6 +61,8 @@ def run(rep: Report, tier: str) -> None:
 	rule_e(rep, idx)
 	rule_f(rep, idx)
 	rule_chain_fold(rep, idx)
+	rule_iteration_protocol(rep, idx)
+	rule_template_path_match(rep, idx)
 
 
 def rule_a(rep: Report, idx: SourceIndex) -> None:
@@ -443,3 +446,68 @@ def rule_chain_fold(rep: Report, idx: SourceIndex) -> None:
 	roots = set(params[1:]) | {'node_of_elements'}
 	back = fold.backward_consumers(f.node, roots)
 	r.check(not back, 'front-to-back', f.where, f'the chain is consumed from the end ({[unparse(b) for b in back][:2]}): typing must follow Python\'s left-to-right evaluation of a same-level chain')
+
+
+def rule_iteration_protocol(rep: Report, idx: SourceIndex) -> None:
+	"""`for x in obj`: the elements are what `__next__` of the iterator returns. For a class that is its own iterator (`__iter__` returns the class,
+	`__next__` returns T) the element type is T, so the resolver must look for `__next__` first and use `__iter__` only as the fallback."""
+	r = rep.rule('C03/iteration-protocol-order', 'IteratorTrait resolves the element type through __next__ first and falls back to __iter__ (the names come from PythonClassOperations.iterator / .iterable)', floor=2)
+	tr = idx.mod('rogw/tranp/semantics/reflection/traits.py')
+	acc = idx.mod('rogw/tranp/syntax/node/definition/accessible.py')
+	ops = acc.cls('PythonClassOperations')
+	names = {k: const_str(v) for k, v in ops.class_attrs.items() if k in ('iterator', 'iterable')}
+	r.check(names == {'iterator': '__next__', 'iterable': '__iter__'}, 'operation-names', ops.where, f'PythonClassOperations.iterator / iterable are {names}; Python: the iterator method is __next__, the iterable method is __iter__')
+	f = tr.cls('IteratorTrait').method('_resolve_method') if 'IteratorTrait' in tr.classes else None
+	if f is None:
+		r.skip('lookup-order', (tr.relpath, 1), 'IteratorTrait._resolve_method vanished')
+		return
+	fx = X(f)
+	pm_ = parent_map(fx)
+	tried = []
+	for c_ in nodes(fx, ast.Call):
+		if unparse(c_.func).endswith('.resolve') and len(c_.args) == 2 and isinstance(c_.args[1], ast.Attribute) and c_.args[1].attr in ('iterator', 'iterable'):
+			in_handler = False
+			cur = c_
+			while id(cur) in pm_:
+				cur = pm_[id(cur)]
+				if isinstance(cur, ast.ExceptHandler):
+					in_handler = True
+			tried.append((in_handler, c_.lineno, c_.args[1].attr))
+	tried.sort()
+	order = [a for _, _, a in tried]
+	if sorted(order) != ['iterable', 'iterator']:
+		r.skip('lookup-order', f.where, f'_resolve_method no longer resolves exactly operations.iterator and operations.iterable ({order})')
+	else:
+		r.check(order == ['iterator', 'iterable'], 'lookup-order', f.where, f'_resolve_method tries {order}: with __iter__ first, a class that implements the iterator protocol itself (`__iter__ -> Own`, `__next__ -> T`) yields elements of its own type instead of T (`for n in Countdown(3)` types n as Countdown)')
+
+
+def rule_template_path_match(rep: Report, idx: SourceIndex) -> None:
+	"""TemplateManipulator._find_actual_path pairs a template position of the declared signature (schema path, e.g. parameters.0.1 = the V of dict[K, V])
+	with a position of the actual argument type. Two positions correspond when their normalised index lists agree — comparing only the LENGTH of the
+	lists pairs V with the first type argument of that depth (K)."""
+	r = rep.rule('C03/template-positions-matched-by-index', 'TemplateManipulator._find_actual_path accepts an actual path only after comparing the normalised index list with the schema\'s (not merely its length)', floor=1)
+	tm = idx.mod('rogw/tranp/semantics/reflection/helper/template.py')
+	f = tm.func('TemplateManipulator._find_actual_path')
+	fx = X(f)
+	loops = [lp for lp in nodes(fx, ast.For) if has_call(lp.iter, 'items')]
+	rets = [n for lp in loops for n in nodes(lp, ast.Return) if n.value is not None]
+	if not rets:
+		r.skip('candidate-accept', f.where, '_find_actual_path no longer returns a candidate from a loop over the actual paths')
+		return
+
+	def content_compare(a: ast.AST) -> bool:
+		"""a comparison of index lists themselves: both sides mention *_elems and neither side is a count"""
+		if not (isinstance(a, ast.Compare) and len(a.ops) == 1 and isinstance(a.ops[0], (ast.Eq, ast.NotEq))):
+			return False
+		l, rgt = unparse(a.left), unparse(a.comparators[0])
+		if 'elem_counts' in l and 'elem_counts' in rgt or l.startswith('len(') or rgt.startswith('len('):
+			return False
+		return 'elems' in l and 'elems' in rgt and not (l.startswith('DSN.elem_counts') or rgt.startswith('DSN.elem_counts'))
+
+	for ret in rets:
+		known = atoms(fx, ret)
+		ok = any(content_compare(a) and p_ == isinstance(a.ops[0], ast.Eq) for a, p_ in known) or any(p_ and isinstance(a, ast.Call) and isinstance(a.func, ast.Attribute) and a.func.attr == 'startswith' and 'elems' in unparse(a) for a, p_ in known)
+		# `if <count test> and <lists differ>: continue` — the conjunction is false at the return; the count test is re-established by the return's own branch
+		ok = ok or any(not p_ and isinstance(a, ast.BoolOp) and isinstance(a.op, ast.And) and any(content_compare(v) and isinstance(v.ops[0], ast.NotEq) for v in a.values) for a, p_ in known)
+		ok = ok or any(p_ and isinstance(a, ast.BoolOp) and isinstance(a.op, ast.Or) and any(content_compare(v) and isinstance(v.ops[0], ast.Eq) for v in a.values) for a, p_ in known)
+		r.check(ok, f'candidate-accept:{unparse(ret.value)[:40]}', (tm.relpath, ret.lineno), f'`{unparse(ret)[:80]}` accepts a candidate after comparing only the NUMBER of normalised path elements (conditions: {[(unparse(a)[:60], p_) for a, p_ in known][-3:]}): for `def vof(d: dict[K, V]) -> V` the first argument of equal depth is taken and `vof(d)` is typed str for a dict[str, int]', unparse(ret)[:100])
